@@ -1,5 +1,6 @@
 import Exetera.Lemmas.UniqueOrder
 import Exetera.Lemmas.While
+import Exetera.Lemmas.UniqueEncode
 /-! The binary search of `isin_indexed_string_speedup` on a sorted test list decides membership. -/
 namespace Exetera.Unique
 open Exetera Exetera.Spec
@@ -88,5 +89,35 @@ theorem isinRow_eq (tests : List Bytes) (v : Bytes) (hs : SortedLe tests) :
       · have := hlo j hj hc; omega
       · have := hhi j hj (by omega); omega
   simp [key]
+
+/-! ### the row loop and the Python wrapper -/
+
+theorem isinLoop_encode (tests : List Bytes) (col : List Bytes) (hs : SortedLe tests) :
+    ∀ (k i : Nat) (acc : List Bool), i + k = col.length →
+      isinLoop tests (encode col).1 (encode col).2 col.length k i acc
+        = .ok (acc ++ (col.drop i).map (fun v => decide (v ∈ tests))) := by
+  intro k
+  induction k with
+  | zero => intro i acc h; simp [isinLoop]; omega
+  | succ k ih =>
+    intro i acc h
+    have hi : i < col.length := by omega
+    obtain ⟨lo, hi', h1, h2, h3, _⟩ := encode_row col i hi
+    rw [isinLoop, h1, h2]
+    simp only [h3, isinRow_eq tests _ hs, hi, if_true]
+    rw [ih (i + 1) _ (by omega), List.drop_eq_getElem_cons hi]
+    simp only [List.map_cons, List.append_assoc, List.singleton_append]
+
+theorem isinSpeedup_encode (tests col : List Bytes) (hs : SortedLe tests) :
+    isinSpeedup tests (encode col).1 (encode col).2 = .ok (Spec.isin col tests) := by
+  unfold isinSpeedup
+  rw [encode_rows, isinLoop_encode tests col hs col.length 0 [] (by omega)]
+  simp [Spec.isin]
+
+theorem sortedStr_sorted (xs : List Bytes) : SortedLe (sortedStr xs) :=
+  List.pairwise_mergeSort bytesLe_trans bytesLe_total xs
+
+theorem mem_sortedStr {xs : List Bytes} {v : Bytes} : v ∈ sortedStr xs ↔ v ∈ xs :=
+  (List.mergeSort_perm xs bytesLe).mem_iff
 
 end Exetera.Unique
